@@ -30,6 +30,7 @@ def r1(ctx):
     body = P.body(key)
     site = body.get("def_span")
     rs = return_sites(body)
+    board_params = {l["n"] for l in body["locals"][1:body["argc"] + 1] if l["ty"].lstrip("&").replace("mut ", "").strip() == "chess_movegen::Board"}
     ctx.floor("return sites", len(rs), 1)
     for bi, s in rs:
         r = s["r"]
